@@ -183,7 +183,7 @@ def run_gen(ctx, plan, seed):
         workers = 1
     t0 = time.time()
     r = vf.mc_run(ctx, "c19-" + plan["name"], "ConfigLangGen", c, {}, invariants=INVS, spec="GenSpec", workers=workers,
-                  timeout=1500 if not ctx.quick else 100, heap="6g" if not ctx.quick else "3g", extra=extra)
+                  timeout=1500 if not ctx.quick else 600, heap="6g" if not ctx.quick else "3g", extra=extra)
     out = r.pop("out")
     if r["violated"] or r["error"] or (not sim and not r["ok"]):
         raise vf.Infra("ConfigLangGen/%s: model checking of the feature model failed (%s)\n%s" % (
